@@ -2,6 +2,7 @@
    call raises (as the property states); proofs in Proofs/ExecLive.v, ExecSafe.v, ExecMeasure.v. *)
 From Coq Require Import List Bool Arith.
 From EL Require Import Model.Exec Model.ExecInv Proofs.ExecLiveCor Proofs.ExecMeasure.
+From EL Require Import Model.StepExec Model.LiveSpec Proofs.StepSafe Proofs.StepLive Proofs.StepLiveCor.
 From EL Require Import Model.StepExec Model.DepExec Model.LiveSpec Proofs.DepSafe Proofs.DepLiveCor.
 Import ListNotations.
 
@@ -62,3 +63,12 @@ Theorem C02_wait_list_drained_before_inner_shutdown :
     wf_prog n prog -> dreach c (dinit n prog) d -> r_in_inner_shutdown d = true -> rwait d = [].
 Proof. exact wait_list_empty_at_inner_shutdown. Qed.
 Print Assumptions C02_wait_list_drained_before_inner_shutdown.
+
+(* ---- the per-call-process executor (Model/StepExec.v, Proofs/StepLive.v) ---- *)
+Theorem C02_percall_all_done_at_rest :
+  forall c n prog x,
+    xnofail c -> fits c -> wf_prog n prog -> xreach c (xinit n prog) x ->
+    xenabled c x = [] ->
+    forall i, In i (subm (base x)) -> fdone (getf (base x) i) = true.
+Proof. intros c n prog x H1 H2 H3 H4 H5. exact (proj1 (proj2 (step_rest c n prog x H1 H2 H3 H4 H5))). Qed.
+Print Assumptions C02_percall_all_done_at_rest.
